@@ -1,7 +1,8 @@
 (* C14 property theorems: statements only, each closed by [exact]. *)
 From Boltons Require Import Lib.Prelude Lib.C14_Text Spec.C14_Spec Model.C14_Model Gen.C14_Gen
   Check.C14_Check Proofs.C14_Table Proofs.C14_Sh Proofs.C14_Cmd Proofs.C14_Int Proofs.C14_Int2 Proofs.C14_Int3
-  Proofs.C14_Gzip Gen.C14_Src Proofs.C14_SrcEq Proofs.C14_SrcEqCmd.
+  Proofs.C14_Gzip Gen.C14_Src Proofs.C14_SrcEq Proofs.C14_SrcEqCmd
+  Proofs.C14_Read.
 Open Scope N_scope.
 
 (* (T) obligation over the table regenerated from the source on every run:
@@ -96,6 +97,19 @@ Theorem C14_int_roundtrip : forall d rd L space,
   parse_int_list (format_int_list [d] [rd] L space) [d] [rd] = Ok (sort_dedup L).
 Proof. exact parse_format_roundtrip. Qed.
 Print Assumptions C14_int_roundtrip.
+
+(* parse_int_list agrees with the reference reading of EVERY well-formed range
+   string (numerals and ranges in either order, blanks, empty pieces, repetitions),
+   for any two one-character delimiters that are not white space *)
+Theorem C14_parse_reads : forall d rd,
+  py_isspace d = false -> py_isspace rd = false ->
+  forall s l, read_ranges d rd s = Some l -> parse_int_list s [d] [rd] = Ok l.
+Proof. exact parse_reads. Qed.
+Print Assumptions C14_parse_reads.
+
+Example C14_parse_reads_inhabited :
+  read_ranges c_comma c_minus [32; 56; 45; 53; 44; 32; 49; 32; 44; 44; 51; 45; 51; 44; 49] = Some [1; 1; 3; 5; 6; 7; 8]%Z.
+Proof. vm_compute. reflexivity. Qed.
 
 (* complement_int_list: the canonical text of exactly the integers of the window
    [max 0 start, stop) that the range string does not contain *)
